@@ -240,6 +240,30 @@ func gitExec(c *Ctx, op string) {
 	if _, e := os.Lstat(filepath.Join(base, "cache", "git", "fileset", "012", "345", missing.Hash)); e == nil {
 		c.PropFail("git-missing-commit", "a shelf was created for a commit the repository lacks", op)
 	}
+	// C10 for git wares: an earlier unpack of the same commit through the cache with an altering filter must not change
+	// what a later lossless unpack shows
+	if later != "detach" && uerr == nil && upan == "" {
+		auf := api.MustParseFilesetUnpackFilter("uid=7,gid=8,mtime=follow,sticky=follow,setid=follow,dev=follow")
+		luf := api.MustParseFilesetUnpackFilter(losslessUnpackStr)
+		safeCall(func() (api.WareID, error) {
+			return gittrans.Unpack(context.Background(), id, filepath.Join(base, "dstA"), auf, rio.Placement_Copy, wh, rio.Monitor{})
+		})
+		dB := filepath.Join(base, "dstB")
+		_, berr, bpan := safeCall(func() (api.WareID, error) {
+			return gittrans.Unpack(context.Background(), id, dB, luf, rio.Placement_Copy, wh, rio.Monitor{})
+		})
+		c.H("git-alt-history")
+		if berr == nil && bpan == "" {
+			if sn, e := Snapshot(dB); e == nil {
+				for _, e := range sn {
+					if e.Uid != 1000 || e.Gid != 1000 {
+						c.PropFail("git-cache-poisoned-by-filter", fmt.Sprintf("after an earlier unpack of the same commit with uid=7,gid=8 through the cache, a lossless unpack shows %q owned by %d:%d instead of 1000:1000", e.Name, e.Uid, e.Gid), op)
+						break
+					}
+				}
+			}
+		}
+	}
 	// every commit at all later repository states, from the same process and the same warehouse address: the repository
 	// gains a commit after the unpacks above; that commit must unpack too
 	if later != "detach" {
